@@ -15,6 +15,7 @@ def run(tier, seed, work):
     per, depth, nj = (5, 50, 14) if quick else (25, 60, 14)
     # "told paid once or refund once for an id, never twice" spans restarts from an exported state
     rj = [("c05reimp_%d" % j, ["reimport", "-n", 3 if quick else 12, "-depth", 30, "-seed", seed * 1000 + 360 + j, "-mode", "bridge"]) for j in range(4 if quick else 8)]
-    groups = [("Trace_Bridge.tla", "Trace_Bridge_C05.cfg", bc.jobs("c05", seed + 1, per, depth, nj)), ("Trace_Bridge.tla", "Trace_Bridge_C05.cfg", rj)]
+    groups = [("Trace_Bridge.tla", "Trace_Bridge_C05.cfg", bc.jobs("c05", seed + 1, per, depth, nj) + bc.jobs("c05burst", seed + 4, max(2, per // 2), depth, 4, mode="burst")),
+              ("Trace_Bridge.tla", "Trace_Bridge_C05.cfg", rj)]
     return verif.run_stateful_check("C05", tier, seed, work, mc_list=mc, groups=groups, key_fn=bc.key,
                                     level="model_checking", assumptions=bc.ASSUME, rule=RULE)
